@@ -90,3 +90,40 @@ Example terminate_nonvacuous :
              ([LDone 1%N (OVal 5%Z) true] ++ LAbort :: [LDone 0%N (OVal 2%Z) true; LDone 3%N OReject true; LDone 2%N (OVal 9%Z) true; LEmpty])
   with Ret c r => r = ROk 2%Z 7 3%N 1%N /\ length (c_started c) = 4 | _ => False end.
 Proof. vm_compute. repeat split. Qed.
+
+(** ** liveness of a poll.  One poll of the controller future runs turns of the select loop until
+    both branches are pending ([Poll.poll]); the guard of the abort branch is the regenerated
+    source fact.  For every state, every queue of completions, every random choice of [select!]
+    and whether or not the abort signal was sent: the poll returns (pending or ready) within
+    [length ready + 2] loop iterations — it cannot spin. *)
+From Cambrian Require Import Poll.
+Theorem every_poll_returns :
+  forall (V M T : Type) (tcmp : T -> T -> comparison) (mean : list T -> T) (hit : T -> bool)
+         (max_pop min_reeval ss : nat) (budget : option N) (init_val : V) (os : N -> orc V M)
+         (ready : list (N * outcome T * bool)) (pick : nat -> bool) (sent : bool) (c : ctl V M T),
+    poll V M T tcmp mean hit max_pop min_reeval ss budget init_val os abort_branch_guarded
+         (S (S (length ready))) pick sent c ready <> PSpin V M T.
+Proof.
+  intros. apply poll_returns; [reflexivity|].
+  match goal with |- context [if ?b then _ else _] => destruct b end; lia.
+Qed.
+Print Assumptions every_poll_returns.
+
+(** the same loop without the guard: once the signal was sent and while something is in flight
+    that does not complete, no amount of iterations ends the poll (the defect that was repaired) *)
+Theorem unguarded_poll_spins_refuted :
+  forall (V M T : Type) (tcmp : T -> T -> comparison) (mean : list T -> T) (hit : T -> bool)
+         (max_pop min_reeval ss : nat) (budget : option N) (init_val : V) (os : N -> orc V M)
+         (fuel : nat) (pick : nat -> bool) (c : ctl V M T),
+    c_infl c <> [] ->
+    poll V M T tcmp mean hit max_pop min_reeval ss budget init_val os false fuel pick true c [] = PSpin V M T.
+Proof. intros. apply poll_spins_without_guard; [reflexivity|assumption]. Qed.
+Print Assumptions unguarded_poll_spins_refuted.
+
+Example poll_nonvacuous :
+  match poll nat unit Z Z.compare (fun l => hd 0%Z l) (fun _ => false) 100 20 1 None 7 ex_os true 5 (fun _ => true) true
+             (init Z 20 1 3%N None 7 ex_os) [(1%N, OVal 5%Z, true); (0%N, OVal 2%Z, true)] with
+  | PPending _ _ _ c => c_aborted c = true /\ length (c_infl c) = 1 /\ length (c_items c) = 2
+  | _ => False
+  end.
+Proof. vm_compute. repeat split. Qed.
